@@ -7,7 +7,7 @@ Local Open Scope N_scope.
 (* ---------------------------------------------------------------------------------------- *)
 (* generic tactics                                                                           *)
 (* ---------------------------------------------------------------------------------------- *)
-Ltac st_cbn := cbn [set_head set_tail set_open set_slots set_rw set_sw set_freed set_rnotif set_snotif set_rwakes set_swakes set_ppc set_ph set_pt set_pprev set_pitems set_pcode set_pout set_pwas set_pparked set_cpc set_ch set_ct set_cprev set_cwant set_ccode set_cgot set_cwas set_cparked set_pushed set_received set_discarded set_bad set_uaf set_npub set_hpub set_phc set_ctc head tail open slots rw sw freed rnotif snotif rwakes swakes ppc ph pt pprev pitems pcode pout pwas pparked cpc ch ct cprev cwant ccode cgot cwas cparked pushed received discarded bad uaf npub hpub phc ctc
+Ltac st_cbn := cbn [set_head set_tail set_open set_slots set_rw set_sw set_freed set_released set_rnotif set_snotif set_rwakes set_swakes set_ppc set_ph set_pt set_pprev set_pitems set_pcode set_pout set_pwas set_pparked set_cpc set_ch set_ct set_cprev set_cwant set_ccode set_cgot set_cwas set_cparked set_pushed set_received set_discarded set_bad set_uaf set_npub set_hpub set_phc set_ctc head tail open slots rw sw freed released rnotif snotif rwakes swakes ppc ph pt pprev pitems pcode pout pwas pparked cpc ch ct cprev cwant ccode cgot cwas cparked pushed received discarded bad uaf npub hpub phc ctc
   notify_r notify_s p_acq_ret c_acq_ret do_wk wake_step reg_step w_reg w_waking w_slot touches wk_targets_r_p wk_targets_r_c wk_is_drop andb orb negb] in *.
 
 Ltac split_ifs :=
@@ -27,12 +27,14 @@ Definition swapped (p : pc) : bool :=
 Definition in_drop (p : pc) : bool :=
   match p with
   | Wk KDropR _ | Wk KDropS _ | Drop1 | Drop2 | Drop3 | Free => true
+  | Rel => true     (* with swapped Rel = false: excluded by cinv (pc of the repaired close only) *)
   | _ => false
   end.
 Definition has_freed (p : pc) (was : bool) : bool := match p with Done => negb was | _ => false end.
 
 Definition cinv_b (o pw cw fr sp sc dp dc fp fc : bool) : bool :=
   eqb o (negb (sp || sc))
+  && implb dp sp && implb dc sc
   && (if sp then (if sc then xorb pw cw else pw) else true)
   && (if sc then (if sp then true else cw) else true)
   && (if dp then negb pw else true)
@@ -58,10 +60,10 @@ Proof.
   all: cbn [swapped in_drop has_freed]; intros H; exact H.
 Qed.
 
-Ltac dst s := destruct s as [xhead xtail xopen xslots xrw xsw xfreed xrnotif xsnotif xrwakes xswakes xppc xph xpt xpprev xpitems xpcode xpout xpwas xpparked xcpc xch xct xcprev xcwant xccode xcgot xcwas xcparked xpushed xreceived xdiscarded xbad xuaf xnpub xhpub xphc xctc].
+Ltac dst s := destruct s as [xhead xtail xopen xslots xrw xsw xfreed xreleased xrnotif xsnotif xrwakes xswakes xppc xph xpt xpprev xpitems xpcode xpout xpwas xpparked xcpc xch xct xcprev xcwant xccode xcgot xcwas xcparked xpushed xreceived xdiscarded xbad xuaf xnpub xhpub xphc xctc].
 
 Ltac destruct_pc p :=
-  destruct p as [ | [ | | | ] [ | | ] | [ | | | | | | ] | | | | [ | | | | ] [ | | [ | ] | ] | | | | | | ].
+  destruct p as [ | [ | | | ] [ | | ] | [ | | | | | | ] | | | | [ | | | | ] [ | | [ | ] | ] | | | | | | | ].
 
 Global Arguments cinv_b : simpl never.
 
@@ -86,11 +88,12 @@ Ltac pc_cases x :=
   destruct_pc x; unfold do_wk, wake_step, reg_step; st_cbn; cbn [swapped in_drop has_freed] in *;
   split_ifs; cbn [swapped in_drop has_freed] in *.
 
-Lemma cinv_pstep : forall cap s, cinv s = true -> cinv (pstep cap s) = true.
+Lemma cinv_pstep : forall cap s, cinv s = true -> cinv (pstep false cap s) = true.
 Proof.
   intros cap s. dst s.
   unfold cinv, pstep. st_cbn. intros H.
   pc_cases xppc; try exact H.
+  all: try (exfalso; revert H; clear; unfold cinv_b; generalize (swapped xcpc) (in_drop xcpc) (has_freed xcpc xcwas); intros; bool_brute; fail).
   all: try (eapply cinv_close; exact H).
   all: try (eapply cinv_free; exact H).
   all: try (eapply cinv_done1; exact H).
@@ -114,11 +117,12 @@ Lemma cinv_drop1_c : forall o pw fr sp dp fp,
   cinv_b o pw false fr sp true dp true fp false = true.
 Proof. intros. bool_brute. Qed.
 
-Lemma cinv_cstep : forall cap s, cinv s = true -> cinv (cstep cap s) = true.
+Lemma cinv_cstep : forall cap s, cinv s = true -> cinv (cstep false cap s) = true.
 Proof.
   intros cap s. dst s.
   unfold cinv, cstep. st_cbn. intros H.
   pc_cases xcpc; try exact H.
+  all: try (exfalso; revert H; clear; unfold cinv_b; generalize (swapped xppc) (in_drop xppc) (has_freed xppc xpwas); intros; bool_brute; fail).
   all: try (eapply cinv_close_c; exact H).
   all: try (eapply cinv_free_c; exact H).
   all: try (eapply cinv_done1_c; exact H).
